@@ -31,6 +31,8 @@ enum Field {
     CheckU16LE,
     /// trame![U16LE, u8]  (3 nodes)
     TrameU16U8,
+    /// trame![Option<U16LE> (present / absent), u8] (3 nodes): an absent optional element followed by data
+    TrameOptMid(bool),
     /// nested component {a: u8, b: U32BE} (3 nodes)
     Nested,
     /// length field (U16LE) + byte block of that length (2 nodes)
@@ -64,7 +66,7 @@ impl Field {
     fn nodes(&self) -> usize {
         match self {
             Field::SkipTwo(..) => 4,
-            Field::TrameU16U8 | Field::Nested | Field::SkipGap(_) | Field::SkipChain(..) | Field::SizedSkip(_) | Field::NestedSize(_) => 3,
+            Field::TrameU16U8 | Field::TrameOptMid(_) | Field::Nested | Field::SkipGap(_) | Field::SkipChain(..) | Field::SizedSkip(_) | Field::NestedSize(_) => 3,
             Field::SizedBytes(_) | Field::SizedArray(_) | Field::SkipPair(_) | Field::SkipBack(_) => 2,
             _ => 1,
         }
@@ -86,6 +88,8 @@ fn field_menu() -> Vec<Field> {
         Field::CheckU8,
         Field::CheckU16LE,
         Field::TrameU16U8,
+        Field::TrameOptMid(true),
+        Field::TrameOptMid(false),
         Field::Nested,
         Field::SizedBytes(0),
         Field::SizedBytes(1),
@@ -244,6 +248,22 @@ fn build(shape: &[Field], variant: usize) -> Built {
                 empty.insert(name, Box::new(trame![U16::LE(0), 0u8]));
                 w.u16le(a).u8(b);
                 leaves.push(Leaf::H(a));
+                leaves.push(Leaf::B(b));
+            }
+            Field::TrameOptMid(present) => {
+                let a = nx16();
+                let b = nx8();
+                if *present {
+                    msg.insert(name.clone(), Box::new(trame![Some(U16::LE(a)), b]));
+                    empty.insert(name, Box::new(trame![Some(U16::LE(0)), 0u8]));
+                    w.u16le(a).u8(b);
+                    leaves.push(Leaf::H(a));
+                } else {
+                    msg.insert(name.clone(), Box::new(trame![None::<U16>, b]));
+                    empty.insert(name, Box::new(trame![None::<U16>, 0u8]));
+                    w.u8(b);
+                    leaves.push(Leaf::None);
+                }
                 leaves.push(Leaf::B(b));
             }
             Field::Nested => {
@@ -708,7 +728,7 @@ impl Prop for C18 {
         json!({"idx": idx, "case": self.cases[idx as usize]})
     }
     fn rule(&self) -> String {
-        "cases: [model] every message shape of <=4 nodes (<=5 thorough) over {u8, U16/U32 LE/BE, fixed byte block, Check, Trame, nested Component, size-dependent byte block and array (DynOption Size), skippable field (DynOption SkipField: adjacent target, distant target, two skips pending at once, a skip naming an earlier field, a skipped field that itself carries a skip), a size-dependent field that itself carries a skip or a size for the next field, trailing Option present/absent, trailing rest-of-input block, trailing array} x 2 (5) value variants from {0,1,7F,80,FF,...}: length()==bytes written==reference bytes, read into an empty same-shape message reproduces every leaf and consumes exactly; [per] every length 0..0x7FFF, integers (all of u16, u32 boundaries; all 2^32 in thorough), integer16 (value,minimum) boundary pairs and whole rows, every nibble-valid 6-arc OID over {0,1,15,16,127,128,255}, octet strings at every length boundary, numeric strings; [asn1] INTEGER/ENUMERATED/OCTET STRING boundaries and the tagged shapes of MCS/CredSSP against an independent DER codec; [gcc] conference create request for block sizes across the PER length boundaries, every response of the reference encoder over versions x optional SC_CORE fields x 0..31 channels x 6 block orders x unknown block (none / 8-byte body / empty body between the blocks / empty body at the end) x node ids. Non-trivial: every case except single-leaf model shapes.".into()
+        "cases: [model] every message shape of <=4 nodes (<=5 thorough) over {u8, U16/U32 LE/BE, fixed byte block, Check, Trame, Trame with an absent / present optional element in front of data, nested Component, size-dependent byte block and array (DynOption Size), skippable field (DynOption SkipField: adjacent target, distant target, two skips pending at once, a skip naming an earlier field, a skipped field that itself carries a skip), a size-dependent field that itself carries a skip or a size for the next field, trailing Option present/absent, trailing rest-of-input block, trailing array} x 2 (5) value variants from {0,1,7F,80,FF,...}: length()==bytes written==reference bytes, read into an empty same-shape message reproduces every leaf and consumes exactly; [per] every length 0..0x7FFF, integers (all of u16, u32 boundaries; all 2^32 in thorough), integer16 (value,minimum) boundary pairs and whole rows, every nibble-valid 6-arc OID over {0,1,15,16,127,128,255}, octet strings at every length boundary, numeric strings; [asn1] INTEGER/ENUMERATED/OCTET STRING boundaries and the tagged shapes of MCS/CredSSP against an independent DER codec; [gcc] conference create request for block sizes across the PER length boundaries, every response of the reference encoder over versions x optional SC_CORE fields x 0..31 channels x 6 block orders x unknown block (none / 8-byte body / empty body between the blocks / empty body at the end) x node ids. Non-trivial: every case except single-leaf model shapes.".into()
     }
     fn assumptions(&self) -> Vec<String> {
         vec![
@@ -893,7 +913,9 @@ impl Prop for C18 {
                 Outcome::pass("asn1-enum", true)
             }
             Case::Asn1Octets(n) => {
-                let v: Vec<u8> = (0..n).map(|i| (i * 5 + 2) as u8).collect();
+              // three contents: a pattern, all zero, 00 FF FF .. (the first content octet follows the length octets)
+              for fill in 0..3u8 {
+                let v: Vec<u8> = (0..n).map(|i| match fill { 0 => (i * 5 + 2) as u8, 1 => 0, _ => if i == 0 { 0 } else { 0xFF } }).collect();
                 let lib = lasn1::to_der(&(v.clone() as OctetString));
                 let want = der::octets(&v);
                 if lib != want {
@@ -909,12 +931,14 @@ impl Prop for C18 {
                 if lasn1::from_ber(&mut y, &wide).is_err() || y != v {
                     return fail("asn1-octets-ber-long-length", format!("{} bytes", n));
                 }
+              }
                 Outcome::pass("asn1-octets", true)
             }
             Case::Asn1Shapes(k) => asn1_shape(k),
             Case::Cssp(a, b) => {
-                let tok: Vec<u8> = (0..a).map(|i| (i * 7 + 3) as u8).collect();
-                let pk: Vec<u8> = (0..b).map(|i| (i * 11 + 5) as u8).collect();
+              for fill in 0..2u8 {
+                let tok: Vec<u8> = (0..a).map(|i| if fill == 1 && i < 2 { 0 } else { (i * 7 + 3) as u8 }).collect();
+                let pk: Vec<u8> = (0..b).map(|i| if fill == 1 && i < 2 { 0 } else { (i * 11 + 5) as u8 }).collect();
                 let want1 = der::seq(&[der::explicit(0, &der::integer(2)), der::explicit(1, &der::seq(&[der::seq(&[der::explicit(0, &der::octets(&tok))])]))]);
                 let lib1 = lcssp::create_ts_request(tok.clone());
                 if lib1 != want1 {
@@ -937,6 +961,7 @@ impl Prop for C18 {
                     Ok(p) if p == pk => {}
                     other => return fail("cssp-ts-validate-roundtrip", format!("{:?}", other.map(|t| t.len()).map_err(|e| format!("{:?}", e)))),
                 }
+              }
                 Outcome::pass("cssp", true)
             }
             Case::GccRequest(n) => {
